@@ -495,7 +495,7 @@ C15 = dict(
     mutate=_mutate_batched, chunk=300,
     rule="M: the abstract loop of Batched.tla model-checked over 3 uids. G: 178 strictly valid policy sets x 8 conformant environments (attribute chains "
          "through present / record-less entities, optional data present or absent) x 3 loader behaviours (exactly what is asked; everything on the first "
-         "call; one extra entity per call), each run with every budget 0..9 through is_authorized_batched with a recording loader. TLC checks: a reported "
+         "call; one extra entity per call), each run with every budget 0..12 (two more than the distinct uids of the largest environment) through is_authorized_batched with a recording loader. TLC checks: a reported "
          "decision is the ordinary decision, budgets too small answer 'insufficient', a decision persists for larger budgets, a budget above the number of "
          "distinct uids (store, request, policies) decides, and the recorded loader calls are a behaviour of the loop (<= budget calls, nothing asked twice).",
     assumptions=["loaders are deterministic and backed by the environment's store; a loader never returns the same entity twice"],
